@@ -342,7 +342,7 @@ theorem tie_stmtsWriteHeader : Generated.stmtsWriteHeader = (["parent := filepat
   "parentAnode.mu.Lock()",
   "defer parentAnode.mu.Unlock()",
   "existing, ok := parentAnode.children[base]",
-  "if !ok { if isDotName(base) { return false, &fs.PathError{Op: \"writeheader\", Path: name, Err: fs.ErrInvalid} } anode := &node{ name: base, mode: te.header.FileInfo().Mode(), dir: false, modTime: te.header.ModTime, linkTarget: te.header.Linkname, xattrs: map[string][]byte{}, hardlinks: map[string]*tar.Header{}, te: &te, } parentAnode.children[base] = anode return true, nil }",
+  "if !ok { if isDotName(base) { return false, &fs.PathError{Op: \"writeheader\", Path: name, Err: fs.ErrInvalid} } anode := &node{ name: base, mode: entryMode(&te.header), dir: false, modTime: te.header.ModTime, linkTarget: te.header.Linkname, xattrs: map[string][]byte{}, hardlinks: map[string]*tar.Header{}, te: &te, } parentAnode.children[base] = anode return true, nil }",
   "want, got := te, existing.te",
   "if got == nil { if existing.data == nil { return false, fmt.Errorf(\"conflicting file for %q has no tar entry\", name) } h := sha1.New() h.Write(existing.data) checksum := h.Sum(nil) if bytes.Equal(want.checksum, checksum) { return false, nil } return false, fmt.Errorf(\"conflicting file for %q with checksum %x, existing has checksum %x\", name, want.checksum, checksum) }",
   "if bytes.Equal(got.checksum, want.checksum) { return false, nil }",
@@ -351,7 +351,7 @@ theorem tie_stmtsWriteHeader : Generated.stmtsWriteHeader = (["parent := filepat
   "for _, replace := range want.pkg.Replaces { if got.pkg.Name == replace { replaces = true break } }",
   "sameOrigin := got.pkg.Origin == want.pkg.Origin",
   "if !sameOrigin && !replaces { return false, apk.FileConflictError{ Path: name, Origins: map[string]string{ got.pkg.Name: got.pkg.Origin, want.pkg.Name: want.pkg.Origin, }, } }",
-  "anode := &node{ name: base, mode: te.header.FileInfo().Mode(), dir: false, modTime: te.header.ModTime, linkTarget: te.header.Linkname, xattrs: map[string][]byte{}, hardlinks: map[string]*tar.Header{}, te: &te, }",
+  "anode := &node{ name: base, mode: entryMode(&te.header), dir: false, modTime: te.header.ModTime, linkTarget: te.header.Linkname, xattrs: map[string][]byte{}, hardlinks: map[string]*tar.Header{}, te: &te, }",
   "parentAnode.children[base] = anode",
   "return true, nil"] : List String) := by rfl
 
